@@ -15,9 +15,11 @@
 package meta
 
 import (
+	"bytes"
 	"context"
 	"fmt"
 	"reflect"
+	"sort"
 )
 
 var (
@@ -358,12 +360,17 @@ func write(ctx context.Context, oprot Protocol, tt *TypeMeta, gv reflect.Value) 
 		if err := oprot.WriteMapBegin(ctx, tt.KeyType.TypeID, tt.ValueType.TypeID, gv.Len()); err != nil {
 			return err
 		}
-		iter := gv.MapRange()
-		for iter.Next() {
-			if err := write(ctx, oprot, tt.KeyType, iter.Key()); err != nil {
+		// Go randomises map iteration; write the entries in the order of their
+		// encoded keys (then values) so that equal maps always yield equal bytes.
+		entries, err := sortedMapEntries(ctx, tt, gv)
+		if err != nil {
+			return err
+		}
+		for _, e := range entries {
+			if err := write(ctx, oprot, tt.KeyType, e.key); err != nil {
 				return err
 			}
-			if err := write(ctx, oprot, tt.ValueType, iter.Value()); err != nil {
+			if err := write(ctx, oprot, tt.ValueType, e.val); err != nil {
 				return err
 			}
 		}
@@ -400,4 +407,32 @@ func write(ctx context.Context, oprot Protocol, tt *TypeMeta, gv reflect.Value) 
 		panic(fmt.Errorf("invalid typeID: %d", tt.TypeID))
 	}
 	return nil
+}
+
+type mapEntry struct {
+	key, val reflect.Value
+	enc      []byte // binary encoding of the key followed by the value
+}
+
+// sortedMapEntries returns the entries of the map gv ordered by the binary
+// encoding of their keys and values, which does not depend on iteration order
+// or, for pointer keys, on addresses.
+func sortedMapEntries(ctx context.Context, tt *TypeMeta, gv reflect.Value) ([]mapEntry, error) {
+	entries := make([]mapEntry, 0, gv.Len())
+	iter := gv.MapRange()
+	for iter.Next() {
+		mem := new(MemoryTransport)
+		tmp := NewBinaryProtocol(mem)
+		if err := write(ctx, tmp, tt.KeyType, iter.Key()); err != nil {
+			return nil, err
+		}
+		if err := write(ctx, tmp, tt.ValueType, iter.Value()); err != nil {
+			return nil, err
+		}
+		entries = append(entries, mapEntry{key: iter.Key(), val: iter.Value(), enc: mem.Bytes()})
+	}
+	sort.SliceStable(entries, func(i, j int) bool {
+		return bytes.Compare(entries[i].enc, entries[j].enc) < 0
+	})
+	return entries, nil
 }
